@@ -33,6 +33,9 @@ var (
 )
 
 func setupRepo() {
+	if o := os.Getenv("VERIF_OUT"); o != "" {
+		outDir = o
+	}
 	alt := os.Getenv("VERIF_REPO")
 	if alt == "" || alt == "/repo" {
 		return
